@@ -1,0 +1,93 @@
+//! Verification hook (feature `verif`): drive one connection's state machine
+//! (`VirtualSocket`) poll by poll from an external harness, the way
+//! `stream_dispatch/tests.rs::TestVsock` does for the unit tests.
+//! Read-only accessors plus construction; no behaviour is changed.
+
+use std::{
+    future::Future,
+    net::SocketAddr,
+    pin::Pin,
+    sync::Arc,
+    task::{Context, Poll},
+    time::Instant,
+};
+
+use tokio::sync::mpsc::{UnboundedSender, unbounded_channel};
+
+use crate::{
+    UtpSocket, UtpStream,
+    congestion::CongestionController,
+    message::UtpMessage,
+    traits::{Transport, UtpEnvironment},
+};
+
+use super::{StreamArgs, Timer, UtpStreamStarter, VirtualSocket};
+
+pub struct VsockDriver<T, E> {
+    vsock: VirtualSocket<T, E>,
+}
+
+fn rel<const N: u8>(t: &Timer<N>, base: Instant) -> Option<u128> {
+    t.poll_at().map(|i| i.saturating_duration_since(base).as_nanos())
+}
+
+impl<T: Transport, E: UtpEnvironment> VsockDriver<T, E> {
+    /// Build a connection exactly as the socket dispatcher does, without spawning its task.
+    pub fn new(
+        socket: &Arc<UtpSocket<T, E>>,
+        remote: SocketAddr,
+        args: StreamArgs,
+    ) -> (Self, UtpStream, UnboundedSender<UtpMessage>) {
+        let (tx, rx) = unbounded_channel();
+        let UtpStreamStarter { stream, vsock, .. } = UtpStreamStarter::new(socket, remote, rx, args);
+        (VsockDriver { vsock }, stream, tx)
+    }
+
+    /// Wrap the connection's congestion controller (e.g. in a logging proxy).
+    pub fn map_congestion_controller(
+        &mut self,
+        f: impl FnOnce(Box<dyn CongestionController>) -> Box<dyn CongestionController>,
+    ) {
+        // A placeholder is needed while the box is moved out.
+        let placeholder: Box<dyn CongestionController> = Box::new(
+            crate::congestion::cubic::Cubic::new(self.vsock.this_poll.now, 1),
+        );
+        let old = std::mem::replace(&mut self.vsock.congestion_controller, placeholder);
+        self.vsock.congestion_controller = f(old);
+    }
+
+    pub fn poll_once(&mut self, cx: &mut Context<'_>) -> Poll<crate::Result<()>> {
+        Pin::new(&mut self.vsock).poll(cx)
+    }
+
+    /// Canonical text of the protocol-visible state; timer deadlines relative to `base`.
+    pub fn fingerprint(&self, base: Instant) -> String {
+        let v = &self.vsock;
+        let o = |x: Option<u128>| x.map(|n| n.to_string()).unwrap_or_else(|| "-".into());
+        format!(
+            "st={:?} seq={} lss={} lc={} lsa={} lsw={} cbu={} rtor={} lrw={} t_rtx={} t_inact={} t_ack={} t_pipe={} t_syn={} rto={} rtt={} ss={:?} rec={}",
+            v.state,
+            v.seq_nr,
+            v.last_sent_seq_nr,
+            v.last_consumed_remote_seq_nr,
+            v.last_sent_ack_nr,
+            v.last_sent_window,
+            v.consumed_but_unacked_bytes,
+            v.rto_retransmissions,
+            v.last_remote_window,
+            o(rel(&v.timers.retransmit, base)),
+            o(rel(&v.timers.remote_inactivity_timer, base)),
+            o(rel(&v.timers.ack_delay_timer, base)),
+            o(rel(&v.timers.recovery_pipe_expiry, base)),
+            o(rel(&v.timers.syn_ack_resend, base)),
+            v.rtte.retransmission_timeout().as_nanos(),
+            v.rtte.roundtrip_time().as_nanos(),
+            v.segment_sizes.log_debug(),
+            if v.recovery.is_recovering() { "recovering" } else { "no" },
+        )
+    }
+
+    pub fn segments_mut(&mut self) -> &mut crate::stream_tx_segments::Segments {
+        &mut self.vsock.user_tx_segments
+    }
+}
